@@ -356,6 +356,16 @@ class Interp:
             except (ValueError, IndexError, TypeError) as e:
                 raise PyRaise(e)
         recv0 = getattr(fn, "__self__", None)
+        if isinstance(recv0, str) and getattr(fn, "__name__", "") == "join" and len(args) == 1 and not kwargs:
+            from .models import SymStr as _SymStr
+            items = self.to_list(args[0])
+            if any(isinstance(x, _SymStr) for x in items) and all(isinstance(x, (str, _SymStr)) for x in items):
+                parts = []
+                for q, x in enumerate(items):
+                    if q and recv0:
+                        parts.append(recv0)
+                    parts.extend(x.parts if isinstance(x, _SymStr) else [x])
+                return _SymStr(parts)
         if isinstance(recv0, slice) and has_symbolic(recv0) or (isinstance(recv0, slice) and has_symbolic(args)):
             if fn.__name__ == "indices" and len(args) == 1:
                 # slice.indices(n) = CPython's PySlice_GetIndicesEx: (start, stop, step) with start + length * step consistent with the clamped bounds
@@ -1130,6 +1140,15 @@ class Interp:
                 parts.append(v.value)
             else:
                 x = self.eval(v.value, env)
+                from .models import SymStr as _SymStr
+                if isinstance(x, _SymStr) and v.format_spec is None and v.conversion in (-1, 115):
+                    symbolic = True
+                    parts.extend(x.parts)
+                    continue
+                if isinstance(x, (SV, _SymStr)) and v.format_spec is not None:
+                    symbolic = True
+                    parts.append(("format", self.eval(v.format_spec, env), x))      # a value under a format specification: another text than str(value)
+                    continue
                 if isinstance(x, (SV, SArr, SObj)):
                     # constructor term of the string (A-STR-FREE): literal pieces and the symbolic values formatted into it, in order
                     symbolic = True
